@@ -2,6 +2,7 @@
    the refutations of the code before commit 2959d55, and the non-vacuity examples. *)
 From Coq Require Import Permutation.
 From C16 Require Import Model CaseDefs Proofs.
+From C16 Require Import ModelExt ModelDeadline ProofsDeadline.
 
 (* Per shard: the replicas are tried in order; plain errors are skipped; the first replica that does
    anything else decides: an answer, or a special refusal (too-many-uniq fails the shard at once). *)
